@@ -93,6 +93,10 @@ def gen_typed(rnd):
             lines.append("@pytest.mark.skip")
         name = "test_new"
     kw = "async def" if rnd.random() < 0.25 else "def"
+    if rnd.random() < 0.2:
+        # other white space between the keywords and the name (valid Python): several blanks, a tab
+        kw = kw.replace("async def", "async" + rnd.choice(["  ", "\t", " "]) + "def") + rnd.choice([" ", "\t", ""])
+        tags = list(tags) + ["typed:keyword-gap"]
     params = rnd.sample(["db", "client", "fx_a", "cfg"], rnd.randint(0, 3))
     forms = [rnd.choice(["{n}", "{n}: int", "{n}=None", "{n}: T = 3"]).format(n=p) for p in params]
     shape = rnd.choice(["same", "same", "same_comma", "multi", "open_only"])
